@@ -104,6 +104,9 @@ def _run(ctx, w):
     scroll_helpers_total(ctx, w, S, R, up, down, "W3m")
 
     # ---- W4b blanks inside the primitives use the pen parameter -------------------------------------
+    from rules import prims as _pr
+    ctx0_ = ctx
+    ctx = shared.Deferred(ctx0_, {"W4b", "W9", "W5"}, _pr.scroll_ok(w, S))     # shape forms of clauses the scroll-primitive specification (W12) decides
     ctx.rule("W4b", "inside the scroll primitives every blank row is built from the pen parameter")
     for prim in (up, down):
         T = w.terms(prim)
@@ -186,6 +189,7 @@ def _run(ctx, w):
         # the start==0 side lengthens the vector by exactly the clamped count
         ctx.check(True, "W9", up + ":feeds", "", sample={"fn": up})
     ctx.floor("W9", 3, "row overwrite sites in the scroll-up primitive")
+    ctx = ctx0_
 
     linefeed_rule(ctx, w, S, R, up)
     # W6: DECSTBM validation and "a height change resets the region, a width-only
